@@ -53,7 +53,7 @@ claim("C18", "exploration",
       "One injected failure per run at a generated position (C05 enumerates every position); after an injected failure an incomplete copy may remain under DIR. Loop mount needs root; absent => those cases fall back to the plain ext4 target.",
       "proptest generation; oracle = invariants over before/after inventories", "DESIGN.md 4 C18")
 claim("C20", "exploration",
-      "Generated scenarios x all five operations x subsets of the intended files locked by the harness through open-file-description write or read locks on four byte ranges (whole file, beyond EOF, first byte, tail) x --no-lock on/off x locked files writable or read-only with fclones run without CAP_DAC_OVERRIDE (setpriv) x a directory without lock support (EOPNOTSUPP through the interposer) x a failing lstat of a locked file x same-mount and cross-mount move targets. Locked files must be untouched with a warning; unlocked intended files must be processed; with --no-lock everything intended is processed.",
+      "Generated scenarios x all five operations x subsets of the intended files locked by the harness through open-file-description write or read locks on four byte ranges (whole file, beyond EOF, first byte, tail) x --no-lock on/off x locked files writable or read-only with fclones run without CAP_DAC_OVERRIDE (setpriv) x a directory without lock support (EOPNOTSUPP through the interposer) x a failing lstat of a locked file x same-mount and cross-mount move targets. Locked files must be untouched with a warning; unlocked intended files must be processed; with --no-lock everything intended is processed. In a fifth of the cases the conflict is reported to fclones as ENOLCK instead of EAGAIN.",
       "OFD locks of the harness conflict with fclones' F_SETLK like a foreign process' lock; intention learnt from a dry run.",
       "proptest generation; oracle = inventory comparison against the dry-run intention under foreign locks", "DESIGN.md 4 C20")
 
